@@ -47,14 +47,20 @@ Proof.
   rewrite N.eqb_refl. reflexivity.
 Qed.
 
-Lemma apply_cell_merge : forall s b o t r,
-    apply_cell s b o t = Some r -> merge_cell b o t = Some r.
+Lemma apply_cell_merge : forall s wc b o t r,
+    apply_cell s wc b o t = Some r -> merge_cell b o t = Some r.
 Proof.
-  intros s b o t r. unfold apply_cell, merge_cell.
+  intros s wc b o t r. unfold apply_cell, merge_cell.
   destruct (N.eqb_spec t b) as [Htb|Htb]; [intro H; exact H|].
-  destruct (s && (N.eqb b 0 || N.eqb t 0)).
-  - destruct (N.eqb_spec o b) as [Hob|Hob]; [intro H; exact H|discriminate].
-  - destruct (s && N.eqb o 0); [discriminate|]. intro H; exact H.
+  destruct (s && N.eqb b 0) eqn:Hsb.
+  - apply andb_true_iff in Hsb. destruct Hsb as [_ Hb0]. apply N.eqb_eq in Hb0. subst b.
+    destruct (N.eqb_spec o 0) as [Ho0|Ho0]; [intro H; exact H|].
+    destruct (N.eqb wc 0 && N.eqb o t) eqn:Hwo; [|discriminate].
+    apply andb_true_iff in Hwo. destruct Hwo as [_ Hot]. rewrite Hot. apply N.eqb_eq in Hot.
+    intro H. rewrite Hot. exact H.
+  - destruct (s && N.eqb t 0).
+    + destruct (N.eqb_spec o b) as [Hob|Hob]; [intro H; exact H|discriminate].
+    + destruct (s && N.eqb o 0); [discriminate|]. intro H; exact H.
 Qed.
 
 (* ---------------------------------------------------------------- merge3 *)
@@ -117,19 +123,19 @@ Qed.
 
 (* ---------------------------------------------------------------- apply3way *)
 
-Lemma apply3way_from_merge : forall o i c t r,
-    apply3way_from i o c t = Some r -> merge3 o c t = Some r.
+Lemma apply3way_from_merge : forall o i w c t r,
+    apply3way_from i w o c t = Some r -> merge3 o c t = Some r.
 Proof.
-  induction o as [|x o IH]; intros i [|y c] [|z t] r; cbn [apply3way_from merge3];
+  induction o as [|x o IH]; intros i [|wc w] [|y c] [|z t] r; cbn [apply3way_from merge3];
     try discriminate; try (intro H; exact H).
-  destruct (apply_cell (Nat.leb multi_cells i) x y z) as [cl|] eqn:Hc; [|discriminate].
-  destruct (apply3way_from (S i) o c t) as [r'|] eqn:Hr; [|discriminate].
-  intro H. rewrite (apply_cell_merge _ _ _ _ _ Hc), (IH _ _ _ _ Hr). exact H.
+  destruct (apply_cell (Nat.leb multi_cells i) wc x y z) as [cl|] eqn:Hc; [|discriminate].
+  destruct (apply3way_from (S i) w o c t) as [r'|] eqn:Hr; [|discriminate].
+  intro H. rewrite (apply_cell_merge _ _ _ _ _ _ Hc), (IH _ _ _ _ _ Hr). exact H.
 Qed.
 
 Lemma apply_is_merge :
-  forall o c t r, apply3way o c t = Some r -> merge3 o c t = Some r.
-Proof. intros o c t r. unfold apply3way. apply apply3way_from_merge. Qed.
+  forall w o c t r, apply3way w o c t = Some r -> merge3 o c t = Some r.
+Proof. intros w o c t r. unfold apply3way. apply apply3way_from_merge. Qed.
 
 (* ---------------------------------------------------------------- apply_delta *)
 
